@@ -1,0 +1,33 @@
+//go:build verif
+
+// Contracts for the deductive verifier in /verif (gocv). Comment-only file. The red-black tree itself is not verified;
+// the undo of one value-log entry is, with the same contract as the radix tree's (C08).
+
+package rbt
+
+// nodeAt names the node stored at an arena address; getNode reads it through an unsafe pointer cast into arena memory
+// (outside the subset: trusted, only its determinism is used).
+//@ spec func nodeAt(a *nodeAllocator, idx uint32, off uint32) *memdbNode
+//@ func (*nodeAllocator) getNode
+//@   trusted
+//@   modifies nothing
+//@   ensures result == nodeAt(a, addr.idx, addr.off) && result != nil
+
+// Undoing an entry points the node back at its old value. When there was none (the key was new in the undone stage) the
+// node keeps exactly the persistent part of its key flags (colour bit untouched); when that part is empty the node becomes
+// a deleted node carrying no key flag at all, and the entry count and size drop by the key.
+//@ func (*RBT) RevertVAddr
+//@   prop C08
+//@   may-panic
+//@   opaque-callee GetValue
+//@   requires nulladdr: arena.NullAddr.idx == 4294967295 && arena.NullAddr.off == 4294967295
+//@   ensures addr: nodeAt(ref(db.allocator), hdr.NodeAddr.idx, hdr.NodeAddr.off).vptr == hdr.OldValue
+//@   ensures kept: (hdr.OldValue.idx == 4294967295 || hdr.OldValue.off == 4294967295) && (old(nodeAt(ref(db.allocator), hdr.NodeAddr.idx, hdr.NodeAddr.off).flags) & 16383) & kv.persistentFlags != 0 ==>
+//@       nodeAt(ref(db.allocator), hdr.NodeAddr.idx, hdr.NodeAddr.off).flags & 16383 == (old(nodeAt(ref(db.allocator), hdr.NodeAddr.idx, hdr.NodeAddr.off).flags) & 16383) & kv.persistentFlags &&
+//@       nodeAt(ref(db.allocator), hdr.NodeAddr.idx, hdr.NodeAddr.off).flags & 49152 == old(nodeAt(ref(db.allocator), hdr.NodeAddr.idx, hdr.NodeAddr.off).flags) & 49152 &&
+//@       db.count == old(db.count) && db.size == old(db.size) - mathint(hdr.ValueLen)
+//@   ensures gone: (hdr.OldValue.idx == 4294967295 || hdr.OldValue.off == 4294967295) && (old(nodeAt(ref(db.allocator), hdr.NodeAddr.idx, hdr.NodeAddr.off).flags) & 16383) & kv.persistentFlags == 0 ==>
+//@       nodeAt(ref(db.allocator), hdr.NodeAddr.idx, hdr.NodeAddr.off).flags & 32767 == 16384 &&
+//@       nodeAt(ref(db.allocator), hdr.NodeAddr.idx, hdr.NodeAddr.off).flags & 32768 == old(nodeAt(ref(db.allocator), hdr.NodeAddr.idx, hdr.NodeAddr.off).flags) & 32768 &&
+//@       db.count == old(db.count) - 1 && db.size == old(db.size) - mathint(hdr.ValueLen) - mathint(nodeAt(ref(db.allocator), hdr.NodeAddr.idx, hdr.NodeAddr.off).klen)
+//@   ensures older: !(hdr.OldValue.idx == 4294967295 || hdr.OldValue.off == 4294967295) ==> nodeAt(ref(db.allocator), hdr.NodeAddr.idx, hdr.NodeAddr.off).flags == old(nodeAt(ref(db.allocator), hdr.NodeAddr.idx, hdr.NodeAddr.off).flags) && db.count == old(db.count)
